@@ -15,6 +15,7 @@ LEVEL_TEXT = ("Real single-end runs with --info-file over generated option sets 
               "field 6 is the stretch between the reported coordinates and equals the stretch the hook recorded as aligned to the named adapter "
               "with the reported error count; quality fields split at the same coordinates.")
 LEVEL_TEXT += ' The full quality range (Q1 is a double quote), empty and odd adapter names, and the R1 rows of paired runs (with --pair-adapters and every action) against R1 as read from the input.'
+LEVEL_TEXT += ' In paired runs the R1 rows must not depend on the action.'
 LEVEL_NOTE = ("Trusted base: independent parser, unique ids, refmodel.revcomp; the hooked match list of the adapter stage (if the hook is "
               "missing the 'aligned stretch' clause is inconclusive). The sequence column of no-match rows is not judged. Paired-end data is "
               "documented as unsupported by the info file: in paired runs (with and without --pair-adapters, every action) only the rows of R1 are judged, against R1 as read from the input.")
